@@ -141,6 +141,13 @@ def w19(arg):
                 for diff in range(128):
                     do((st, 1, 100, 1, 200, vrsrc, vrsign, 17, dsign, diff))
                     acc.out.add(("diff", dsign, diff))
+    elif mode == "diag":
+        # arithmetic relations between the two 10-bit fields: the whole diagonal, the anti-diagonal, and neighbours
+        for st in items:
+            for v in range(1024):
+                for b in (v, 1023 - v, (v + 1) % 1024):
+                    do((st, v % 2, v, (v // 2) % 2, b, 0, 1, (v % 511) + 1, 0, 5))
+            acc.out.add(("diag", st))
     elif mode == "pairs":
         # joint conditions: every pair of the fourteen ME fields at every combination of their corner values (0, 1, top bit
         # only, all ones), the other fields at a plausible default; per subtype
@@ -285,6 +292,7 @@ def run(ctx):
            (4, 0, 512, 0, 0, 0, 0, 0, 0, 0), (3, 1, 1023, 0, 1, 1, 1, 2, 1, 2)]
     tasks += [("v", ("bg1", [f])) for f in bgf]
     tasks += [("v", ("pairs", [st])) for st in (1, 2, 3, 4)]
+    tasks += [("v", ("diag", [st])) for st in (1, 2, 3, 4)]
     for tc in (5, 6, 7, 8):
         for c in chunks(range(128), 16):
             tasks.append(("s", (tc, list(c))))
